@@ -10,7 +10,7 @@ Lemma Good_reach fx n tr s : n < 65536 -> run fx (init n) tr = Ok s -> Good s.
 Proof. intros Hn H. eapply Good_run; [apply Good_init; exact Hn|exact H]. Qed.
 
 (* the identifier handed to a new call is one no call is waiting on *)
-Theorem begin_fresh fx s p s' : Inv s -> step fx s (Begin p) = Ok s' -> table_full (tbl s) = false ->
+Theorem begin_fresh fx s p tmo s' : Inv s -> step fx s (Begin p tmo) = Ok s' -> table_full (tbl s) = false ->
   exists i, id_of s' p = Some i /\ tget (tbl s) i = None /\ tget (tbl s') i = Some p /\ waiting s' p = true.
 Proof.
   intros HI H Hf. cbn [step] in H. destruct (pget (pings s) p); [discriminate|]. rewrite Hf in H.
@@ -21,7 +21,7 @@ Proof.
 Qed.
 
 (* with all 65536 identifiers waited for the call returns an error and registers nothing *)
-Theorem begin_full fx s p s' : step fx s (Begin p) = Ok s' -> table_full (tbl s) = true ->
+Theorem begin_full fx s p tmo s' : step fx s (Begin p tmo) = Ok s' -> table_full (tbl s) = true ->
   result_of s' p = Some RBusy /\ tbl s' = tbl s /\ next s' = next s.
 Proof.
   intros H Hf. cbn [step] in H. destruct (pget (pings s) p); [discriminate|]. rewrite Hf in H.
@@ -113,12 +113,12 @@ Qed.
 (* ------------------------------------------------------------------ *)
 (* non-vacuity of ping_iff: both outcomes occur in one history *)
 
-Definition ex_pre : list event := [Begin 0%nat; Sent 0%nat true].
+Definition ex_pre : list event := [Begin 0%nat SECOND; Sent 0%nat true].
 (* call 1 (id 2): a foreign reply arrives while it is still inside its send, another one later *)
 Definition ex_mid : list event :=
-  [Notify 1; Sent 1%nat true; Begin 2%nat; Notify 3; Sent 2%nat true; Timeout 1%nat; Skip].
+  [Notify 1; Sent 1%nat true; Begin 2%nat 0%Z; Notify 3; Sent 2%nat true; Tick SECOND; Timeout 1%nat; Skip].
 Definition ex_post : list event := [End 0%nat; Notify 2].
-Definition ex_history : list event := ex_pre ++ Begin 1%nat :: ex_mid ++ End 1%nat :: ex_post.
+Definition ex_history : list event := ex_pre ++ Begin 1%nat SECOND :: ex_mid ++ End 1%nat :: ex_post.
 
 Example ping_iff_nonvacuous :
   exists s, run false init_go ex_history = Ok s /\
@@ -130,7 +130,7 @@ Proof. eexists. split; [vm_compute; reflexivity|]. repeat split; vm_compute; ref
 (* a reply parsed while the call is still inside its send completes it: the waiter is registered
    before the request is written *)
 Definition ex_during_send : list event :=
-  [Begin 0%nat; Notify 1; Sent 0%nat true; End 0%nat].
+  [Begin 0%nat 0%Z; Notify 1; Sent 0%nat true; End 0%nat].
 Example reply_during_send :
   exists s, run FIX24 init_go ex_during_send = Ok s /\ result_of s 0%nat = Some RNil /\ tbl s = [].
 Proof. eexists. split; [vm_compute; reflexivity|]. split; vm_compute; reflexivity. Qed.
@@ -138,8 +138,8 @@ Proof. eexists. split; [vm_compute; reflexivity|]. split; vm_compute; reflexivit
 (* the history that used to collide (call 0 waits, the identifier counter goes once around, call 1
    starts): call 1 now skips identifier 1, and the reply for identifier 1 completes call 0 *)
 Definition wrap_history : list event :=
-  [Begin 0%nat; Sent 0%nat true; BulkFail 65535; Begin 1%nat; Sent 1%nat true; Notify 1; End 0%nat;
-   Timeout 1%nat; End 1%nat].
+  [Begin 0%nat SECOND; Sent 0%nat true; BulkFail 65535; Begin 1%nat SECOND; Sent 1%nat true; Notify 1; End 0%nat;
+   Tick SECOND; Timeout 1%nat; End 1%nat].
 Example wrap_repaired :
   exists s, run true init_go wrap_history = Ok s /\
     id_of s 0%nat = Some 1 /\ id_of s 1%nat = Some 2 /\
